@@ -258,8 +258,9 @@ package fstree
 // ---- C12 (generic writer): whatever goes wrong while the temporary copy is written, only
 // the temporary file is removed - the object's final path may hold an earlier, complete copy
 // of the same object whose Put had reported success.
+// (C13 too: a failing write must not take away an object whose own write had succeeded.)
 //@ callrule c12_only_the_temporary_file_is_removed in (*genericWriter).writeAndRename
-//@   property C12
+//@   property C12 C13
 //@   callee os.RemoveAll, os.Remove
 //@   pureeffect
 //@   requires [never_the_final_path] a0 == tmpPath
